@@ -182,6 +182,10 @@ UNITS['positionToIndex_list_sampled'] = lconv('sampled', 'SampledDimension')
 UNITS['positionToIndex_list_range'] = lconv('range', 'RangeDimension')
 LCX = ('int gh_lc_vectors, gh_lc_scale_calls, gh_lc_scale_units, gh_lc_scale_dim_unit, gh_lc_scale_out_s, gh_lc_scale_out_e, gh_lc_axis_calls, gh_lc_axis_s, gh_lc_axis_e, gh_lc_axis_tag, gh_lc_axis_after_scale;\n'
        'const double *gh_lc_scale_starts, *gh_lc_scale_ends; size_t gh_lc_len_s, gh_lc_len_e; RangeMatch gh_lc_axis_match;\n')
+import props.c18 as _c18
+UNITS['positionToIndex_scalar_sampled'] = dict(file=DA, locator=r'optional<ndsize_t>\s+positionToIndex\s*\((?=\s*double\s+position\s*,\s*const\s+string\s*&\s*unit\s*,\s*const\s+PositionMatch\s+match\s*,\s*const\s+SampledDimension\s*&)',
+    classes=['SampledDimension', 'nstring'], pre_rules=[_c18.try_catch_all], calls={'getSIScaling': 'getSIScaling_caught'}, overloads={'SampledDimension_indexOf': {2: 'SampledDimension_indexOf_scalar'}}, ret_default='OPT_NONE_ndsize')
+SCX = 'int gh_sc_bad, gh_sc_factor_calls, gh_sc_axis_calls, gh_sc_axis_tag; double gh_sc_asked; PositionMatch gh_sc_match;\n'
 DPX = 'int gh_dp_calls, gh_dp_kind, gh_dp_with_units, gh_dp_units_id, gh_dp_dim_tag; const double *gh_dp_starts, *gh_dp_ends; RangeMatch gh_dp_match; double gh_dp1_position; int gh_dp1_unit; PositionMatch gh_dp1_match;\n'
 EXTRA = ('opt_ndsize gh_ge; opt_pair gh_pair; double gh_pair_start, gh_pair_end; RangeMatch gh_pair_match; int gh_pair_calls; int gh_unspecified; RangeMatch gh_goc_match, gh_tagged_match, gh_fd_match;\n'
          'int gh_views; size_t gh_view_count_rank, gh_view_offset_rank; ndsize_t gh_view_count_k, gh_view_offset_k; const ndsize_t *gh_view_extent_dims;\n'
@@ -197,13 +201,14 @@ JOBS.append(dict(name='tag_assemble_dim', bodies=['NDSize_size', 'NDSize_at', 't
                  defines=['ND_FULL_ALLOC'], cbmc_flags=UNW, expect_kinds=['postcondition', 'precondition'], timeout=900))
 JOBS.append(dict(name='getMaxExtent', bodies=['getMaxExtent'], enforce=['getMaxExtent'], replace=[], extra_c=EXTRA, cbmc_flags=UNW, expect_kinds=['postcondition'], timeout=300))
 JOBS += [dict(name=fn, bodies=[fn], enforce=[fn], replace=[], includes=['c05_listconv.h'], extra_c=LCX, expect_kinds=['postcondition'], timeout=300) for fn in ('positionToIndex_list_sampled', 'positionToIndex_list_range')]
+JOBS.append(dict(name='positionToIndex_scalar_sampled', bodies=['positionToIndex_scalar_sampled'], enforce=['positionToIndex_scalar_sampled'], replace=[], includes=['c05_scalarconv.h'], extra_c=SCX, expect_kinds=['postcondition'], timeout=600))
 JOBS.append(dict(name='positionToIndex_dispatch1', bodies=['positionToIndex_dispatch1'], enforce=['positionToIndex_dispatch1'], replace=[], includes=['c05_dispatch.h'], extra_c=DPX, expect_kinds=['postcondition'], timeout=300))
 JOBS.append(dict(name='positionToIndex_dispatch', bodies=['positionToIndex_dispatch'], enforce=['positionToIndex_dispatch'], replace=[], includes=['c05_dispatch.h'], extra_c=DPX, expect_kinds=['postcondition'], timeout=300))
 for j in rank_cases(job('featureData_tag', ['taggedData_tag', 'mk_DataView_3'], split=True, split_workers=3)):
     r = int(j['name'].split('rank=')[1].rstrip(']'))
     j['tiers'] = ('quick', 'thorough') if r <= 3 else ('thorough',)
     JOBS.append(j)
-SPEC = dict(contracts=['nd.h', 'dv.h', 'c05_tag.h', 'c05_dispatch.h', 'c05_listconv.h'], stubs=['dataarray.h'], include_order=['nd.h', 'dataarray.h', 'dv.h', 'c05_tag.h'], units=UNITS, jobs=JOBS,
+SPEC = dict(contracts=['nd.h', 'dv.h', 'c05_tag.h', 'c05_dispatch.h', 'c05_listconv.h', 'c05_scalarconv.h'], stubs=['dataarray.h'], include_order=['nd.h', 'dataarray.h', 'dv.h', 'c05_tag.h'], units=UNITS, jobs=JOBS,
             trusted_base=['CBMC 6.11.0 (C front end, --dfcc, SAT back end)', 'vlib/cxx2c.py idiom map'] + ND_TRUST +
                          ['Tag / Feature / DataArray handles abstracted to the state these functions read (counts, link type, extent, none-ness)',
                           'assumed: the contract of the DataView constructor (proved for the constructor itself in C17) restated on the construction expression mk_DataView_3',
